@@ -13,6 +13,28 @@ os.makedirs('reintroduced', exist_ok=True)
 res_file = 'reintroduced/RESULTS.json'
 old = {r['name']: r for r in json.load(open(res_file))} if os.path.exists(res_file) else {}
 
+# why a reintroduced defect is not reported by the QUICK tier on the final tree (looked at one by one)
+NOTES = {
+    'C08_fc88665': 'needs a history of three operations (set_layer_size, scroll_area_down, erase_row_to_start): depth 3 is the thorough tier; the history is part of the explicit histories of the quick tier since',
+    'C08_6b76a7d': 'needs a history of three operations (set_layer_size(0,0x0), resize_buffer(true,4x2), make_layer_transparent): depth 3 is the thorough tier; the history is part of the explicit histories of the quick tier since',
+    'C04_0878ba4': 'superseded: since 5093f2d the writer decides by colour, not by index, whether blanks can be skipped; the reverted line is dead on the final tree (equivalent change)',
+    'C11_8aed00e': 'superseded: since e6c4e5e the declared height is not applied before parsing at all; the reverted line copies the buffer\'s own height (equivalent change)',
+    'C03_a686cf9': 'the loop of 2^31 empty iterations stays below the 0.5 s CPU limit in the release profile of the checks',
+    'C12_d275b8e': 'outside the quantifier of C12 (fonts narrower than 8 pixels): no family, recorded as such in the fixed line',
+    'C10_fe7809d': 'outside the quantifier of C10 (a panic of the UTF-8 ANSI writer, no invalid character is stored): no family, recorded as such in the fixed line',
+    'C12_63867d9': 'outside the quantifier of C12 (sixel images): no family, recorded as such in the fixed line',
+    'C13_f7ddc1b': 'pixels, not cells: outside the quantifier of C13',
+    'C13_f37f1a1': 'pixels, not cells: outside the quantifier of C13',
+    'C13_37deb63': 'pixels, not cells: outside the quantifier of C13',
+    'C18_2b90932': 'not a violation of the statement (the attribute is not expressible in the mode), recorded as such in the fixed line',
+    'C14_45b7843': 'superseded: since 73dfbf7 a declaration is a minimum on both axes, rows painted below a declared height extend the picture; reading the third number as a height changes nothing any more (equivalent change)',
+    'C03_7420df6': 'the families reached the pile of images through a macro, which 5b9763d now charges (4 images per invocation); a macro-free stream of 80 maximum-size images legitimately costs seconds of CPU (25 ms per picture) and its memory peak depends on decode timing - tried as a family and dropped as not deterministic enough for a registered check',
+    'C03_7bfe1eb': 'the violation depends on how many decode threads are still running when the next one starts (timing): it did not repeat in the fresh process of the confirmation step, which the supervisor reports as MACHINERY, not as a verdict',
+    'C05_bebe3c4': 'a custom font whose 0x20 is visible: outside the built-in fonts the optimiser family of C12 enumerates, no family in C05 (its round trips use the lossless save path)',
+    'C05_79a202b': 'no file of the fault menu had more than 200 rows; a 201 row file is one of the re-save seeds since',
+    'C20_59866c9': 'below the 0.5 s CPU limit in the release profile of the checks, recorded as such in the fixed line',
+}
+
 fixed = []
 for line in open('KNOWN_FINDINGS.txt'):
     m = re.match(r'fixed: property=(C\d+) ([0-9a-f]{7,}) (.*)', line.strip())
@@ -27,6 +49,12 @@ for prop, commit, what in fixed:
         print(name, 'unknown commit'); continue
     open(path, 'w').write(d.stdout)
 
+if '--annotate-only' in sys.argv:
+    for name, r in old.items():
+        if r.get('result') != 'caught' and name in NOTES:
+            r['note'] = NOTES[name]
+    json.dump(sorted(old.values(), key=lambda r: r['name']), open(res_file, 'w'), indent=1)
+    sys.exit(0)
 if gen_only:
     sys.exit(0)
 
@@ -54,6 +82,8 @@ for prop, commit, what in fixed:
         subprocess.run(['git', '-C', '/repo', 'checkout', '--', '.'])
         subprocess.run(['git', '-C', '/repo', 'clean', '-fdq', 'src'])
     r.update({'name': name, 'property': prop, 'commit': commit, 'defect': what})
+    if r.get('result') != 'caught' and name in NOTES:
+        r['note'] = NOTES[name]
     old[name] = r
     print(name, r['result'], (r.get('signatures') or [''])[0][:100], flush=True)
     json.dump(sorted(old.values(), key=lambda r: r['name']), open(res_file, 'w'), indent=1)
